@@ -9,7 +9,7 @@ from ..core import Obligation, DISCHARGED, VIOLATION, load_table
 from ..facts import walk, strip_targs
 from ..taint import _tree_eq, FLIP
 from ..taintcheck import engine, run_rule, check_controls
-from ..cfgutil import dominating_edges
+from ..cfgutil import dominating_edges, success_returns
 from .. import sinks as S
 from .C09 import root_var, same_obj
 
@@ -117,3 +117,113 @@ def run(ctx, rep):
     rep.control("MAPENTRY", "mapentry_ok (negative)", bool(ok_ctl["mapentry_ok"]),
                 "guarded form must be discharged")
     rep.floor("SetPointMapEntry sites in decoder-layer code", n_real, tab["mapentry_floor"])
+
+
+    claimonce(ctx, rep, eng, tab)
+
+
+def _deref_targets(fn, lv):
+    """`*p` with p a local pointer: the fields p may point to (&field initialisers / assignments)."""
+    e = lv.get("e")
+    while isinstance(e, dict) and e.get("k") in ("icast", "copy"):
+        e = e.get("e")
+    if not (isinstance(e, dict) and e.get("k") == "var" and "d" in e):
+        return []
+    out = []
+
+    def addr_fields(t):
+        for n in walk(t):
+            if n.get("k") == "un" and n.get("op") == "&":
+                x = n.get("e")
+                while isinstance(x, dict) and x.get("k") in ("icast", "copy", "paren"):
+                    x = x.get("e")
+                if isinstance(x, dict) and x.get("k") == "field":
+                    out.append(x)
+    for b, ev in fn.events():
+        if ev["k"] == "decl" and (ev.get("var") or {}).get("d") == e["d"] and isinstance(ev.get("e"), dict):
+            addr_fields(ev["e"])
+    for n, b, rk, ev in fn.nodes():
+        if n.get("k") == "bin" and n.get("op") == "=":
+            l = n.get("l")
+            if isinstance(l, dict) and l.get("k") == "var" and l.get("d") == e["d"]:
+                addr_fields(n.get("r"))
+    return out
+
+
+def claimonce(ctx, rep, eng, tab):
+    """CLAIMONCE: a write-once ownership field (table) is stored only on the
+    'unclaimed' edge of a test of that very field, and the 'claimed' edge of
+    the test cannot reach a success return."""
+    rep.rules_text.append(
+        "CLAIMONCE: every store of a non-negative value into a write-once ownership field of the "
+        "Edgebreaker decoder (rules/c03.json claim_fields) is dominated by the edge of a test of the same "
+        "lvalue on which the field is still negative, and the other edge of that test reaches no success "
+        "return (a second attributes decoder on the same connectivity data is rejected)")
+    fields = {(c["cls"], c["field"]) for c in tab["claim_fields"]}
+
+    def is_claim_field(t):
+        return isinstance(t, dict) and t.get("k") == "field" and \
+            (strip_targs(t.get("cls") or ""), t.get("n")) in fields
+
+    n_real, seen, ctl = 0, set(), {}
+    for fn in eng.scope:
+        is_ctl = fn.name.startswith("verif_control::")
+        ft = eng.ft[fn.key]
+        for n, b, rk, ev in fn.nodes():
+            if n.get("k") != "bin" or n.get("op") != "=":
+                continue
+            lv = n.get("l")
+            while isinstance(lv, dict) and lv.get("k") in ("icast", "copy"):
+                lv = lv.get("e")
+            if is_claim_field(lv):
+                what = lv["n"]
+            elif isinstance(lv, dict) and lv.get("k") == "un" and lv.get("op") == "*" and \
+                    any(is_claim_field(x) for x in _deref_targets(fn, lv)):
+                what = "*" + (lv.get("e") or {}).get("n", "p") + " -> " + \
+                    "/".join(sorted({x["n"] for x in _deref_targets(fn, lv) if is_claim_field(x)}))
+            else:
+                continue
+            c = ft.const_of(n.get("r"))
+            if c is not None and c < 0:
+                continue            # reset to the sentinel
+            site = fn.site(n.get("loc", "") or ev.get("loc", ""))
+            if (fn.base, site) in seen:
+                continue
+            seen.add((fn.base, site))
+            ok_by, problem = None, "no dominating test of the field"
+            for cb, oc, cond in dominating_edges(fn, b):
+                if isinstance(oc, tuple):
+                    continue
+                for l, op, r in ft.atoms(cond, oc):
+                    for side, other, o in ((l, r, op), (r, l, FLIP[op])):
+                        if side is None or other is None or not _tree_eq(_strip(side), lv):
+                            continue
+                        k = ft.const_of(other)
+                        if k is None:
+                            continue
+                        neg = (o == "<" and k <= 0) or (o == "<=" and k <= -1) or (o == "==" and k < 0)
+                        if not neg:
+                            problem = "dominating test `%s` does not establish that the field is still negative" % cb.condsrc
+                            continue
+                        # the other ('claimed') edge must not reach a success return
+                        tgt = cb.succ[1] if oc else cb.succ[0]
+                        reach = fn.reachable(start=tgt) if tgt is not None else set()
+                        succ_ret = [rb for rb, rev, cl in success_returns(fn) if rb.id in reach]
+                        if succ_ret:
+                            problem = ("test `%s`: the edge on which the data is already claimed still reaches a "
+                                       "success return at %s" % (cb.condsrc, fn.site(succ_ret[0].ev[-1].get("loc", ""))))
+                            continue
+                        ok_by = "`%s` (%s edge) at %s; claimed edge only fails" % (
+                            cb.condsrc, "true" if oc else "false", fn.site(cb.tloc or ""))
+            st = DISCHARGED if ok_by else VIOLATION
+            rep.add(Obligation("CLAIMONCE", fn.base, "store to " + what, site, st,
+                               detail="" if ok_by else problem, by=ok_by or "", control=is_ctl))
+            if is_ctl:
+                ctl[fn.name.split("::")[-1]] = st
+            else:
+                n_real += 1
+    for name in ("claim_weak_bad", "claim_missing_bad"):
+        rep.control("CLAIMONCE", name, ctl.get(name) == VIOLATION, "must be reported")
+    for name in ("claim_ok", "claim_ptr_ok"):
+        rep.control("CLAIMONCE", name + " (negative)", ctl.get(name) == DISCHARGED, "must be discharged")
+    rep.floor("stores to write-once ownership fields in Reach(decode)", n_real, tab["claim_floor"])
